@@ -1145,6 +1145,25 @@ impl Synth<'_> {
 }
 
 // ------------------------------------------------------------------ driver
+fn unesc_line(s: &str) -> String {
+    let mut out = String::new();
+    let mut it = s.chars();
+    while let Some(c) = it.next() {
+        if c == '\\' {
+            match it.next() {
+                Some('n') => out.push('\n'),
+                Some('t') => out.push('\t'),
+                Some('r') => out.push('\r'),
+                Some(o) => out.push(o),
+                None => {}
+            }
+        } else {
+            out.push(c);
+        }
+    }
+    out
+}
+
 fn run_real(input: &S) -> Result<S, String> {
     let Some(file) = dfile(input) else { return Err("decode".into()) };
     // the decoder is validated on every case: dump(decode(s)) must be s again
@@ -1168,6 +1187,34 @@ fn emit(out: &mut String, id: &str, stream: &str, tags: &str, input: &S) {
 pub fn main(args: &util::Args) {
     util::quiet_panics();
     let mut out = String::new();
+    // `gv dce replay <file>`: lines `id<TAB>stream<TAB>input-sexp`, run through the real DCE again
+    if args.rest.first().map(|s| s.as_str()) == Some("replay") {
+        let text = std::fs::read_to_string(&args.rest[1]).expect("replay file");
+        for line in text.lines() {
+            let f: Vec<&str> = line.split('\t').collect();
+            if f.len() < 3 {
+                continue;
+            }
+            if f[1] == "SRC" {
+                // recompile the recorded source with the compiler under test and re-feed its output
+                let src = unesc_line(f[2]);
+                let dir = util::scratch_dir("dcer");
+                writeln!(out, "{}\tSRC\t{}", f[0], f[2]).unwrap();
+                if let Outcome::Ok(c) = util::compile_text(&dir, &src) {
+                    emit(&mut out, &format!("{}|refeed", f[0]), "refeed", "", &godump::gfile(&c.go));
+                }
+                let _ = std::fs::remove_dir_all(&dir);
+                continue;
+            }
+            match parse_sexp(f[2]) {
+                Some(s) => emit(&mut out, f[0], f[1], "replay", &s),
+                None => writeln!(out, "{}\tFAIL\t{}\treplay\t{}\tparse", f[0], f[1], f[2]).unwrap(),
+            }
+        }
+        let _ = std::fs::create_dir_all(&args.out);
+        std::fs::write(args.out.join("dce.cases.tsv"), out).unwrap();
+        return;
+    }
     let thorough = args.tier == "thorough";
     let mut sources: Vec<(String, S, String)> = Vec::new();
     // corpus programs (single-file pipeline programs)
